@@ -201,7 +201,7 @@ def gen_case(rng, big):
             chunks.append(list(layout(rng, n, rel, base[nd - rank + i]) if n > 1 else (1,) if rng.random() < 0.9 else (1, 0)))
         ops.append({"shape": list(oshape), "chunks": chunks, "dtype": rng.choice(["u1", "i4", "f8", "f8", "c16", "f4"]), "seed": rng.randrange(10**6), "rels": rels})
     return {
-        "ops": ops, "op": rng.choice(["add", "add", "where", "blockwise", "blockwise", "where_out"]),
+        "ops": ops, "op": rng.choice(["add", "add", "where", "blockwise", "blockwise", "where_out", "blockwise_perm"]),
         "policy": rng.choice(["auto", "auto", "coarse", "refine"]), "limit": rng.choice([None, None, "64B", "1KiB", "512MiB"]),
     }
 
@@ -211,6 +211,10 @@ def k_sum_all(*blocks):
     for b in blocks[1:]:
         out = out + b
     return out
+
+
+def k_add_t(a, b):
+    return a + b.T
 
 
 def check_case(p, ctx):
@@ -250,6 +254,18 @@ def check_case(p, ctx):
                 m_da = da.from_array(np.ascontiguousarray(m_np), chunks=tuple(rand_composition(random.Random(p["ops"][1]["seed"]), n) for n in shp))
                 y = da.add(xs[0].real.astype("f8"), xs[1].real.astype("f8"), where=m_da, out=o_da)
                 y = o_da
+            elif op == "blockwise_perm":
+                # operands whose index tuples are permutations of one another: x over 'ij', y over 'ji' (square arrays);
+                # half of the time both carry the SAME chunks tuple while the two axes are chunked differently
+                r_ = random.Random(p["ops"][0]["seed"])
+                n = r_.randint(2, 8)
+                cx0, cx1 = tuple(rand_composition(r_, n)), tuple(rand_composition(r_, n))
+                cy = (cx0, cx1) if r_.random() < 0.5 else (tuple(rand_composition(r_, n)), tuple(rand_composition(r_, n)))
+                a0 = leaf_values((n, n), "f8", "perm", p["ops"][0]["seed"])
+                a1 = leaf_values((n, n), "f8", "perm", p["ops"][0]["seed"] + 1)
+                arrs, xs = [a0, a1], [da.from_array(a0, chunks=(cx0, cx1)), da.from_array(a1, chunks=cy)]
+                y = da.blockwise(k_add_t, "ij", xs[0], "ij", xs[1], "ji", dtype="f8", align_arrays=True)
+                ev = a0 + a1.T
             elif op == "blockwise":
                 full = [x for x in xs if x.ndim == xs[0].ndim][:3]
                 farr = [a for a in arrs if a.ndim == arrs[0].ndim][:3]
